@@ -336,11 +336,10 @@ def check(ctx):
     # ---- R5 consumers started ---------------------------------------------
     con = repo.method("GeckoAsyncSpa", "_connect")
     started = []
-    for n in walk_no_nested(con.node):
-        if isinstance(n, ast.Call) and call_name(n) == "add_task" and n.args:
-            a = n.args[0]
-            if isinstance(a, ast.Call) and call_name(a) == "consume" and isinstance(a.func.value, ast.Call):
-                started.append(ast.unparse(a.func.value.func))
+    from ..facts import started_tasks
+    for a, _name, _key, _n in started_tasks(repo, con):
+        if isinstance(a, ast.Call) and call_name(a) == "consume" and isinstance(a.func.value, ast.Call):
+            started.append(ast.unparse(a.func.value.func))
     ctx.floor("R5", "consumer tasks started in _connect", len(started), 5)
     # required by role: the discard consumer (class overriding consume) and every
     # handler class whose can_handle accepts traffic the spa sends unsolicited
